@@ -14,6 +14,7 @@ import (
 	"github.com/cosmos/cosmos-sdk/crypto/keys/secp256k1"
 	sdk "github.com/cosmos/cosmos-sdk/types"
 	authtypes "github.com/cosmos/cosmos-sdk/x/auth/types"
+	banktypes "github.com/cosmos/cosmos-sdk/x/bank/types"
 	distrtypes "github.com/cosmos/cosmos-sdk/x/distribution/types"
 	govtypes "github.com/cosmos/cosmos-sdk/x/gov/types"
 	govv1 "github.com/cosmos/cosmos-sdk/x/gov/types/v1"
@@ -206,6 +207,58 @@ func monEndBlockMovers(s *Stream) {
 	}))
 }
 
+// monModuleAccountRecipient: on a chain that has never burnt anything, an ordinary signed MsgSend to the burn *module*
+// account (the transit account of the end-blocker, created lazily by the first burn) is either refused, or harmless:
+// the blocks that follow, with coins sent to the burn address, still end (no halt), leave the burn address empty and
+// shrink the supply by exactly what was sent there.
+func monModuleAccountRecipient(s *Stream, name string) {
+	s.Emit(name, guard(func() string {
+		old := genesisExtraCoins
+		genesisExtraCoins = nil
+		defer func() { genesisExtraCoins = old }()
+		accts := []*Acct{newAcct("A", []byte("macc-A"))}
+		c, err := NewChain(memDB(), tmpHome(), accts, 1000000, nil)
+		if err != nil {
+			return "pass #no-chain " + err.Error()
+		}
+		burnAddr := sdk.MustAccAddressFromBech32(burntypes.BurnAddress)
+		module := authtypes.NewModuleAddress(burntypes.ModuleName)
+		send := func(to sdk.AccAddress, amt int64) (uint32, string) {
+			tx, err := c.BuildTx(TxSpec{Msgs: []sdk.Msg{banktypes.NewMsgSend(accts[0].Addr, to, sdk.NewCoins(sdk.NewInt64Coin(feeDenom, amt)))},
+				Signers: []SignerSpec{{Acct: accts[0]}}, Fee: 1})
+			if err != nil {
+				return 1, err.Error()
+			}
+			r := c.Deliver(tx)
+			return r.Code, r.Log
+		}
+		t := c.Time.Add(5 * time.Second)
+		c.Begin(t)
+		code, _ := send(module, 1)
+		c.End()
+		c.Commit()
+		t = t.Add(5 * time.Second)
+		c.Begin(t)
+		sup0 := c.App.BankKeeper.GetSupply(c.DeliverCtx(), feeDenom).Amount
+		if code2, log := send(burnAddr, 500); code2 != 0 {
+			return "pass #send-to-burn-address-refused " + log
+		}
+		c.End() // a panic here is a halted chain: caught by guard, reported as a failure
+		ctx := c.DeliverCtx()
+		if left := c.App.BankKeeper.SpendableCoins(ctx, burnAddr); !left.IsZero() {
+			return "fail #burn-address-not-empty-at-end-of-block " + left.String()
+		}
+		if got := sup0.Sub(c.App.BankKeeper.GetSupply(ctx, feeDenom).Amount); !got.Equal(sdk.NewInt(500)) {
+			return "fail #supply-did-not-shrink-by-what-reached-the-burn-address shrank=" + got.String()
+		}
+		c.Commit()
+		if code == 0 {
+			return "pass #module-account-accepted-the-transfer"
+		}
+		return "pass"
+	}))
+}
+
 func burnHistory(s *Stream, rng *rand.Rand, steps int, allowVest bool) {
 	e := newBurnEnv(s)
 	e.header()
@@ -244,6 +297,7 @@ func init() {
 		s := NewStream(dir, "burn")
 		defer s.Close(dir, "burn")
 		monEndBlockMovers(s)
+		monModuleAccountRecipient(s, "mon.c07.module-account-recipient")
 		for h := 0; h < n; h++ {
 			burnHistory(s, rng, 10+rng.Intn(25), true)
 		}
